@@ -104,6 +104,11 @@ func (s *Search) Or(field, operator string, value interface{}) *Search {
 	}
 
 	new := s.db.search(s.object, field, operator, value, nil)
+	// the result of the new search may be a sub-slice of the index
+	// so we must not append to it in place
+	fields := make([]*indexedField, len(new.fields), len(new.fields)+len(s.fields))
+	copy(fields, new.fields)
+	new.fields = fields
 	marked := make(map[uint64]bool)
 	// we mark the fields of the new search
 	for _, f := range new.fields {
